@@ -16,7 +16,7 @@ MCNext ==
     \/ \E k \in Keys, p \in PkCand : PublicKey(k, p)
     \/ \E k \in Keys, m \in MsgsMC, s \in SigCand : Sign(k, m, s)
     \/ \E p \in PkCand, m \in MsgsMC, s \in SigCand, ok \in BOOLEAN : Verify(p, m, s, ok)
-    \/ \E k0 \in {0, 7, 8, 248}, k31 \in {0, 63, 64, 127, 128, 192, 255}, ok \in BOOLEAN : FromBytes(k0, k31, ok)
+    \/ \E k0 \in {0, 7, 8}, k31 \in {0, 64, 127, 128, 192}, ok \in BOOLEAN : FromBytes(k0, k31, ok)
 
 \* exactly 2^5 * 2^6 of the 2^16 (byte 0, byte 31) pairs are accepted, and acceptance depends on the five clamping bits only
 ASSUME ClampingCount == Cardinality({ p \in (0..255) \X (0..255) : CheckStructure(p[1], p[2]) }) = 32 * 64
